@@ -36,7 +36,7 @@ ASSUMPTIONS = ["Precision.Double (casting an in-bounds x0 to float32 can leave t
 
 def strategy(tier):
     return SC.solve_case(
-        families=("nlp", "nlp", "degenerate", "infeasible", "qp", "patternvar", "intbox"),
+        families=("nlp", "nlp", "degenerate", "infeasible", "qp", "patternvar", "intbox", "concavebox"),
         max_n=4 if tier == "quick" else 6,
         max_m=3,
         scalings=("none", "none", "custom", "custom", "nominal"),
